@@ -170,6 +170,17 @@ theorem plurality (types votes : List Nat) (corr : List Rat) (iters nAssign : Na
           ((columns types votes corr).1.getD w 0 : Rat)) :=
   chooseCols_winner hv h
 
+/-- `ValidOrder` — the only assumption made about numpy's unstable argsort — is
+    never vacuous: for every vote row some valid order exists. -/
+theorem tie_order_exists (types votes : List Nat) (corr : List Rat) :
+    ∃ order, ValidOrder (columns types votes corr).1 order :=
+  validOrder_exists _
+
+/-- the hypotheses are satisfiable: `[1, 0]` is a valid tie order of the
+    aggregated votes `[0, 3]` -/
+example : ValidOrder (columns [7, 5, 7] [2, 0, 1] [3 / 2, 0, 1 / 4]).1 [1, 0] := by
+  decide +kernel
+
 example : chooseCell [7, 5, 7] [2, 0, 1] [3 / 2, 0, 1 / 4] 3 3 [1, 0] =
     .ok { winner := 7, prob := 1, avgCorr := 7 / 12,
           runners := [{ type := 5, valid := false, avgCorr := 0, prob := 0 }] } := by
